@@ -331,8 +331,13 @@ def run_shard(ctx, spec):
     if spec['i'] == 0:
         # history: two spellings that differ only in letter case (50m = 50 metres, 50M = 50 miles; Mar / MAR) are validated
         # alternately in one process - a memo keyed on the case-folded code would answer one with the other's distance
-        pairs = [('50m', '50M'), ('100m', '100M'), ('Mar', 'MAR'), ('5k', '5K'), ('10m', '10M'), ('mile', 'MILE'), ('3000w', '3000W'), ('hm', 'HM')]
-        hist_texts = ['6.45', '14:30:00', '2:10:00', '10.5', '15:00', '25:00.5', '1:05:00', '59.5', '4:10.2', '12:00:00', '20:00:00']
+        pairs = [('50m', '50M'), ('100m', '100M'), ('Mar', 'MAR'), ('5k', '5K'), ('10m', '10M'), ('mile', 'MILE'), ('3000w', '3000W'), ('hm', 'HM'),
+                 # the same code with and without blanks inside (the distance estimator reads the part before the first blank: a memo
+                 # keyed on the code with its blanks removed would hand one spelling the other's distance)
+                 ('110H106.7cm', '110H 106.7cm'), ('100Y', '100 Y'), ('100y', '100 y'), ('400H91.4cm', '400H 91.4cm'), ('3000SC', '3000 SC'),
+                 ('440y', '440 y'), ('5K', '5 K'), ('100H84cm8.5m', '100 H 84cm 8.5m'), ('10KW', '10 KW'), ('880Y', '880 Y')]
+        hist_texts = ['6.45', '14:30:00', '2:10:00', '10.5', '15:00', '25:00.5', '1:05:00', '59.5', '4:10.2', '12:00:00', '20:00:00',
+                      '5.00', '9:30:00', '20.00', '8.50', '9.085', '8.30', '9.00', '36.20', '40.1', '1:50.5', '8:30.5', '13.2']
         for a, b in pairs:
             for order in ((a, b), (b, a)):
                 for t in hist_texts:
